@@ -28,7 +28,9 @@ RULES = {
 }
 
 T4 = "clematis.engine.stages.t4"
-STAGES = ["_churn_cap", "_l2_scale", "_novelty_clamp", "<cooldown-filter>", "_combine_by_ckey"]
+# the cooldown filter works on the proposals as listed - BEFORE duplicates are merged: a merged delta keeps one op index only,
+# so filtering afterwards lets a blocked op's share through inside a delta attributed to another op (repaired in /repo)
+STAGES = ["_churn_cap", "_l2_scale", "_novelty_clamp", "_combine_by_ckey", "<cooldown-filter>"]
 
 
 def rule_pure(ctx) -> None:
@@ -98,6 +100,44 @@ def _follow(ctx, fn: Func, e: ast.AST, at, limit: int = 40) -> List[str]:
         out.append(f"<{type(cur).__name__}>")
         return out
     return out
+
+
+def _order_free(ctx, fn, e: ast.AST, at, depth: int = 0) -> bool:
+    """the value of e does not depend on the order of the terms it sums"""
+    if depth > 5:
+        return False
+    if isinstance(e, ast.Constant):
+        return True
+    if isinstance(e, ast.UnaryOp):
+        return _order_free(ctx, fn, e.operand, at, depth + 1)
+    if isinstance(e, ast.IfExp):
+        return _order_free(ctx, fn, e.body, at, depth + 1) and _order_free(ctx, fn, e.orelse, at, depth + 1)
+    if isinstance(e, ast.Name):
+        rd = ctx.rd(fn)
+        if not rd.is_local(e.id):
+            return e.id.isupper() or e.id.startswith("_") and e.id[1:].isupper()  # module constant
+        ds = [d for d in rd.reaching(e.id, at) if d.kind != "mutate"]
+        return bool(ds) and all(d.kind == "assign" and d.value is not None and _order_free(ctx, fn, d.value, d.node, depth + 1) for d in ds)
+    if isinstance(e, ast.Call):
+        d = dotted(e.func) or ""
+        if d in ("fsum", "math.fsum"):
+            return True
+        if d == "float" and e.args:
+            return _order_free(ctx, fn, e.args[0], at, depth + 1)
+        if d == "sum" and e.args:
+            a0 = e.args[0]
+            if isinstance(a0, ast.Call) and dotted(a0.func) == "sorted":
+                return True
+            if isinstance(a0, (ast.GeneratorExp, ast.ListComp)) and isinstance(a0.elt, ast.Call) and (dotted(a0.elt.func) or "").split(".")[-1] in ("Fraction", "Decimal"):
+                return (dotted(a0.elt.func) or "").split(".")[-1] == "Fraction"  # exact rational arithmetic
+            return False
+        r = ctx.prog.callee(fn, e)
+        if r and r[0] == "func" and r[1] in ctx.prog.funcs:
+            g = ctx.prog.funcs[r[1]]
+            gcfg = ctx.cfg(g)
+            rets = [m for m in gcfg.nodes if m.kind == "stmt" and isinstance(m.ast, ast.Return) and m.ast.value is not None and m in gcfg.reachable_from_entry()]
+            return bool(rets) and all(_order_free(ctx, g, m.ast.value, m, depth + 1) for m in rets)
+    return False
 
 
 def rule_pipe(ctx) -> None:
@@ -207,7 +247,7 @@ def rule_bound(ctx) -> None:
             continue
         if isinstance(first, ast.Name) and first.id == fn.params[0]:
             # identity branch: needs norm <= cap
-            normn = [d.name for d in rd.all_defs if d.value is not None and isinstance(d.value, ast.Call) and call_tail(d.value) == "sqrt"]
+            normn = [d.name for d in rd.all_defs if d.value is not None and isinstance(d.value, ast.Call) and call_tail(d.value) in ("sqrt", "hypot")]
             capn = [d.name for d in rd.all_defs if d.value is not None and src(d.value) in (f"float({fn.params[1]})", fn.params[1])] + [fn.params[1]]
             ok = any(((f"{a} <= {b} or {a} == 0.0", True) in facts) or _le_fact(facts, a, b) for a in normn for b in capn)
             ctx.check(ok, "C03.BOUND", f"{fn.qual}/identity-branch", fn.loc(r.ast), "input returned unscaled only where norm <= cap (or norm == 0)",
@@ -229,7 +269,7 @@ def rule_bound(ctx) -> None:
                     if uv is not None and isinstance(uv[0], ast.BinOp) and isinstance(uv[0].op, ast.Div):
                         num, den = uv[0].left, uv[0].right
                         den_def = rd.unique_value(den.id, uv[1]) if isinstance(den, ast.Name) else None
-                        if den_def is not None and isinstance(den_def[0], ast.Call) and call_tail(den_def[0]) == "sqrt":
+                        if den_def is not None and isinstance(den_def[0], ast.Call) and call_tail(den_def[0]) in ("sqrt", "hypot"):
                             # numerator is the cap; scaled branch reached only where norm > cap
                             if any(_gt_fact(facts, den.id, src(num)) or ((f"{den.id} <= {src(num)} or {den.id} == 0.0", False) in facts) for _ in [0]):
                                 scale_ok = True
@@ -237,12 +277,27 @@ def rule_bound(ctx) -> None:
                   "scaled deltas are delta * (cap / norm) on the norm > cap branch only (factor in (0,1), ratios and signs preserved)",
                   f"scaled branch is not delta * (cap / sqrt(sum squares)) under norm > cap: `{src(dv) if dv is not None else src(first)[:50]}`")
     ctx.floor("C03.BOUND", "scaled return in _l2_scale", n_scaled, 1)
-    # norm really is the L2 norm of all deltas
+    # norm really is the L2 norm of all deltas - computed so that it is right for every magnitude the statement names
+    # ("huge / denormal"): math.hypot over all components scales internally; sqrt(sum of squares) reads |d| < 1.5e-162 as 0
+    # (the squares underflow), finds norm == 0 <= cap and approves the vector unscaled whatever the cap
+    hyp = [x for x in walk_no_defs(fn.node) if isinstance(x, ast.Call) and call_tail(x) == "hypot"]
     sq = [x for x in walk_no_defs(fn.node) if isinstance(x, ast.AugAssign) and isinstance(x.op, ast.Add) and isinstance(x.value, ast.BinOp)
           and isinstance(x.value.op, (ast.Mult, ast.Pow))]
     gen = [x for x in walk_no_defs(fn.node) if isinstance(x, ast.Call) and dotted(x.func) in ("sum", "fsum", "math.fsum")]
-    ctx.check(bool(sq) or bool(gen), "C03.BOUND", f"{fn.qual}/norm-sum-of-squares", fn.loc(), "norm accumulates delta*delta over the input",
-              "no sum of squares feeds the norm")
+    ok_h = False
+    for h in hyp:
+        for a in h.args:
+            if isinstance(a, ast.Starred) and isinstance(a.value, (ast.ListComp, ast.GeneratorExp)) and len(a.value.generators) == 1 and not a.value.generators[0].ifs \
+                    and isinstance(a.value.generators[0].iter, ast.Name) and a.value.generators[0].iter.id == fn.params[0] and ".delta" in src(a.value.elt):
+                ok_h = True
+    if ok_h:
+        ctx.holds("C03.BOUND", f"{fn.qual}/norm-sum-of-squares", fn.loc(hyp[0]), "norm = hypot over the delta of every input element (range-safe L2 norm)")
+    elif sq or gen:
+        ctx.violation("C03.BOUND", f"{fn.qual}/norm-sum-of-squares", fn.loc((sq or gen)[0]),
+                      "the norm is the square root of a plain sum of squares: for components below about 1.5e-162 every square underflows to 0.0, the norm reads 0 <= cap and the vector is "
+                      "approved unscaled although each component alone exceeds a (validator-accepted) tiny cap; for components above 1e154 the squares overflow")
+    else:
+        ctx.violation("C03.BOUND", f"{fn.qual}/norm-sum-of-squares", fn.loc(), "no L2 norm of the input feeds the cap test")
 
     # ---- churn cap
     fn = ctx.func(T4 + ":_churn_cap")
@@ -492,9 +547,31 @@ def rule_orderins(ctx) -> None:
         sum_sorted = any(dotted(x.func) == "sum" and x.args and isinstance(x.args[0], ast.Call) and dotted(x.args[0].func) == "sorted"
                          for x in (sl.calls() if sl else []))
         ok = bool(names & {"fsum", "math.fsum"}) or sum_sorted
+        # ... or a helper every return of which is order-free: fsum, an exact rational sum (Fraction addition is associative),
+        # or a saturation constant
+        if not ok and isinstance(dv, (ast.Call, ast.Name)):
+            ok = _order_free(ctx, cb, dv, n)
         ctx.check(ok, "C03.ORDERINS", f"{cb.qual}/order-free-sum", cb.loc(c),
                   "merged value = fsum(terms) (exactly rounded, permutation invariant)",
                   "merged value is not computed by an order-insensitive sum (math.fsum or a sum over sorted terms)")
+    # fsum raises OverflowError when a PARTIAL sum leaves the double range - for some listing orders of one multiset and not
+    # for others ([1e308, 1e308, -1e308, -1e308] raises, [1e308, -1e308, 1e308, -1e308] gives 0.0): every fsum on the merge path
+    # sits under a handler for it, so the filter neither raises nor depends on the order
+    from ..util import enclosing as _enc
+    from ..cfg import handler_names as _hn
+    m4 = ctx.prog.module(T4)
+    n_fs = 0
+    for f4 in m4.funcs.values():
+        for x in walk_no_defs(f4.node):
+            if isinstance(x, ast.Call) and (dotted(x.func) or "") in ("fsum", "math.fsum"):
+                n_fs += 1
+                guarded = any(isinstance(st, ast.Try) and part == "body" and any(set(_hn(h)) & {"OverflowError", "ArithmeticError", "Exception", "BaseException", "*"} for h in st.handlers)
+                              for st, part in _enc(ctx.prog, f4, x))
+                ctx.check(guarded, "C03.ORDERINS", ctx.okey(f"{f4.qual}/fsum-overflow-handled"), f4.loc(x),
+                          "fsum runs under a handler for OverflowError (intermediate overflow)",
+                          f"`{src(x)[:40]}` can raise OverflowError when a partial sum leaves the double range - for some listing orders of the same duplicates only: t4_filter then raises instead "
+                          "of approving the (finite) merged value, and whether it does depends on the order in which the deltas are listed")
+    ctx.floor("C03.ORDERINS", "fsum calls in the meta-filter", n_fs, 1)
     # every non-empty return is built by iterating sorted keys
     for r in [n for n in cfg.nodes if n.kind == "stmt" and isinstance(n.ast, ast.Return) and n in cfg.reachable_from_entry()]:
         v = r.ast.value
